@@ -1,5 +1,15 @@
+(** C10 — changing representation loses nothing: the obligations, written out in full. *)
 From Coq Require Import List NArith ZArith String.
-From SK Require Import lib.StrJoin model.C10_Model proof.C10_Proof.
-Theorem C10_label_example : extract_element_and_charge (s2l "Fe"%string ++ charge_to_string 3) = (s2l "Fe"%string, 3%Z).
-Proof. exact label_example. Qed.
-Print Assumptions C10_label_example.
+From SK Require Import lib.LGraph lib.StrJoin model.C10_Model proof.C10_Proof.
+Import ListNotations.
+Local Open Scope Z_scope.
+
+(** GML node labels: for every element symbol in [A-Za-z*]+ and EVERY integer charge, the label written by
+    NXToGML (element ++ _charge_to_string charge) is read back by GMLToNX._extract_element_and_charge as
+    exactly (element, charge). *)
+Theorem C10_label_roundtrip :
+  forall (el : str) (c : Z),
+    el <> [] -> Forall (fun ch => is_elem_char ch = true) el ->
+    extract_element_and_charge (el ++ charge_to_string c) = (el, c).
+Proof. exact label_roundtrip_full. Qed.
+Print Assumptions C10_label_roundtrip.
